@@ -14,20 +14,49 @@
                  the body p; model Crash/ControlMsgs.v vs the real function: parsed structure (or None) and
                  panic / no panic.  fn: 0 log info, 1 sw version, 2 unregister context, 3 connection info,
                  4 timezone.
+     CApid specs : a sequence of calls of utils::get_apid_for_tag in ONE fresh namespace; the tags are given by
+                 recipes (TLit bytes | TNum prefix lo n suffix = the n tags prefix ++ decimal(lo + k) ++ suffix | TRep prefix unit
+                 n suffix = the one tag prefix ++ unit^n ++ suffix, for tags of 10^5 bytes); model
+                 Crash/TextUtils.v (get_apid_for_tag incl. get_4digit_str, trim, the abbreviation loops, the map) vs
+                 the real function, tag by tag: the apid of a TLit, count and a polynomial hash (mod 2^64) of the
+                 apids of a TNum (so that the 10002 calls of the exhausted-candidates family stay a small term).
+     CHex s    : utils::hex_to_bytes on the string s: None / Some bytes / panic vs the model.
+     CAsc reference items : the time / length arithmetic of the CAN asc converter on a file built for the purpose: date
+                 lines (chrono's result is an input), CAN lines of RE_MSG (the line, the capture locations of the
+                 timestamp and of the data length as the regex reports them), BusMapping lines; per message the
+                 reception time, timestamp_dms, standard_header.len and the data bytes vs Crash/TextTime.v.
+     CLogcat start items : monotonic logcat lines: timestamp string and, if the tag is new and non-empty, its byte
+                 length; reception time, timestamp_dms and the `len` of the GET_LOG_INFO message vs the model.
      CSearch n : search-only case of n input bytes; the models say nothing, the observation only records
                  whether the worker finished the chain (the oracle lives on the Rust side). *)
 From Coq Require Import List NArith Bool.
 From AdltV Require Import Base.Obs Base.Res Base.MachInt.
 From AdltV Require Dlt.Frame Dlt.Iter.
 From AdltV Require Import Lifecycle.Model Exec.Lifecycle.
-From AdltV Require Crash.ControlMsgs.
+From AdltV Require Crash.ControlMsgs Crash.TextUtils Crash.TextTime.
+From Coq Require Import ZArith.
 Import ListNotations.
 Open Scope N_scope.
+
+Inductive tagspec : Type :=
+| TLit (s : list N)
+| TNum (pre : list N) (lo n : N) (suf : list N)
+| TRep (pre unit : list N) (n : N) (suf : list N).
+
+(* ADate neg abs: a date line, chrono gives (-1)^neg * abs us since 1970; ACan line ts_a ts_b d_a d_b; ABus name_len *)
+Inductive asc_item : Type :=
+| ADate (neg : bool) (abs : N)
+| ACan (line : list N) (ts_a ts_b d_a d_b : N)
+| ABus (name_len : N).
 
 Inductive case_C03 : Type :=
 | CBytes (bs : list N)
 | CLc (ms : list mspec)
 | CCtrl (fn status : N) (be : bool) (p : list N)
+| CApid (specs : list tagspec)
+| CHex (s : list N)
+| CAsc (reference : option N) (items : list asc_item)
+| CLogcat (start : N) (items : list (list N * option N))
 | CSearch (n : N).
 
 (* DltMessage -> what the detector looks at: ECU (as big-endian u32), reception time, timestamp_us() =
@@ -73,6 +102,56 @@ Definition run_ctrl (fn status : N) (be : bool) (p : list N) : otree :=
   | _ => o_res (oopt (fun x : N * bool => T [L (fst x); ob (snd x)])) (Crash.ControlMsgs.parse_timezone be p)
   end.
 
+(* utils::get_apid_for_tag, a sequence of calls in one namespace *)
+Definition nseq (lo n : N) : list N := map (fun k => lo + N.of_nat k) (seq 0 (N.to_nat n)).
+Definition expand_spec (t : tagspec) : list (list N) :=
+  match t with
+  | TLit s => [s]
+  | TNum pre lo n suf => map (fun i => pre ++ Crash.TextUtils.dec i ++ suf) (nseq lo n)
+  | TRep pre unit n suf => [pre ++ concat (repeat unit (N.to_nat n)) ++ suf]
+  end.
+Definition hash_apids (l : list N) : N :=
+  fold_left (fun h a => (h * 1000003 + a + 1) mod 18446744073709551616) l 0.
+Definition spec_call (m : Crash.TextUtils.amap) (t : tagspec) : res (otree * Crash.TextUtils.amap) :=
+  (x <- Crash.TextUtils.apids_of_tags m (expand_spec t) ;;
+   Ok (match t with
+       | TLit _ | TRep _ _ _ _ => L (hd 0 (fst x))
+       | TNum _ _ _ _ => T [L (N.of_nat (length (fst x))); L (hash_apids (fst x))]
+       end, snd x))%res.
+Definition run_apid (specs : list tagspec) : otree :=
+  o_res (fun x : list otree * Crash.TextUtils.amap => T (fst x)) (Crash.TextUtils.fold_calls spec_call [] specs).
+Definition run_hex (s : list N) : otree :=
+  o_res (oopt (fun v : list N => T (map L v))) (Crash.TextUtils.hex_to_bytes s).
+
+(* the asc converter: one observation per item (a date line yields no message) *)
+Definition asc_call (st : Crash.TextTime.asc_st * option N) (it : asc_item) : res (otree * (Crash.TextTime.asc_st * option N)) :=
+  (let '(a, reference) := st in
+   match it with
+   | ADate neg abs =>
+       a' <- Crash.TextTime.asc_date_line a reference (if neg then (- Z.of_N abs)%Z else Z.of_N abs) ;;
+       Ok (T [], (a', reference))
+   | ACan line ts_a ts_b d_a d_b =>
+       x <- Crash.TextTime.asc_can_line a line ts_a ts_b d_a d_b ;;
+       let '(a', (rt, tdms, len, data)) := x in
+       Ok (T [L rt; L tdms; L len; T (map L data)], (a', reference))
+   | ABus name_len =>
+       len <- Crash.TextTime.info_msg_len name_len ;;
+       Ok (T [L (Crash.TextTime.a_date_us a); L (Crash.TextTime.a_offset_dms a); L len], (a, reference))
+   end)%res.
+Definition run_asc (reference : option N) (items : list asc_item) : otree :=
+  o_res (fun x : list otree * (Crash.TextTime.asc_st * option N) => T (fst x))
+        (Crash.TextUtils.fold_calls asc_call
+           ({| Crash.TextTime.a_date_us := 0; Crash.TextTime.a_offset_dms := 0; Crash.TextTime.a_first_neg := 0%Z |}, reference) items).
+Definition logcat_call (start : N) (it : list N * option N) : res (otree * N) :=
+  (x <- Crash.TextTime.logcat_mono_line start (fst it) ;;
+   info <- (match snd it with
+            | Some n => l <- Crash.TextTime.info_msg_len n ;; Ok (T [L l])
+            | None => Ok (T [])
+            end) ;;
+   Ok (T [L (fst x); L (snd x); info], start))%res.
+Definition run_logcat (start : N) (items : list (list N * option N)) : otree :=
+  o_res (fun x : list otree * N => T (fst x)) (Crash.TextUtils.fold_calls logcat_call start items).
+
 Definition run_C03 (c : case_C03) : otree :=
   match c with
   | CBytes bs =>
@@ -83,6 +162,10 @@ Definition run_C03 (c : case_C03) : otree :=
       end
   | CLc ms => lc_obs (N.of_nat (length ms)) ms
   | CCtrl fn status be p => run_ctrl fn status be p
+  | CApid specs => run_apid specs
+  | CHex s => run_hex s
+  | CAsc reference items => run_asc reference items
+  | CLogcat start items => run_logcat start items
   | CSearch _ => T [L 0]
   end.
 
